@@ -182,7 +182,7 @@ impl ChildCase {
     }
 
     /// literal of a node given leaf values (by member orig index) and ghost values
-    fn node_literal(&self, node: &str, tyname: &str, mval: &dyn Fn(&FMem) -> i64, gval: &dyn Fn(&(String, String, i64)) -> i64) -> String {
+    pub fn node_literal(&self, node: &str, tyname: &str, mval: &dyn Fn(&FMem) -> i64, gval: &dyn Fn(&(String, String, i64)) -> i64) -> String {
         let mut parts = vec![];
         let mut ms: Vec<&FMem> = self.members.iter().filter(|m| m.node == node).collect();
         ms.sort_by_key(|m| m.orig);
